@@ -3,6 +3,8 @@
  * EXPECT-FAIL: C10R cJSON_ParseWithLengthOpts
  * EXPECT-FAIL: C10P cJSON_ParseWithLengthOpts
  * EXPECT-FAIL: C10T cJSON_ParseWithLengthOpts
+ * EXPECT-FAIL: NUM2 parse_number
+ * EXPECT-FAIL: NUM3 parse_number
  */
 #include <stddef.h>
 #include <string.h>
@@ -150,6 +152,23 @@ static int good_abs_index(parse_buffer * const b) { const unsigned char * const 
 /* hoisted limit */
 static int bad_BND2_limit(parse_buffer * const b) { const unsigned char *digits = NULL; size_t limit = 0; size_t i = 0; int n = 0; if (b->offset < b->length) { digits = buffer_at_offset(b); limit = b->length - b->offset + 1; } for (i = 0; i < limit; i++) { n += digits[i]; } return n; }
 static int good_limit(parse_buffer * const b) { const unsigned char *digits = NULL; size_t limit = 0; size_t i = 0; int n = 0; if (b->offset < b->length) { digits = buffer_at_offset(b); limit = b->length - b->offset; if (limit > 63) { limit = 63; } } for (i = 0; i < limit; i++) { n += digits[i]; } return n; }
+
+/* NUM2: the offset moves by the length of the run that was copied, not by what strtod converted */
+static int parse_number(parse_buffer * const b, double *out)
+{
+    unsigned char text[64];
+    unsigned char *after_end = NULL;
+    size_t i = 0;
+    size_t limit = sizeof(text) - 1;
+    if ((b == NULL) || cannot_access_at_index(b, 0)) { return 0; }
+    if (cannot_access_at_index(b, limit)) { limit = (b->length - b->offset) - 1; }     /* NUM3: one short */
+    for (i = 0; i < limit; i++) { if ((buffer_at_offset(b)[i] < '+') || (buffer_at_offset(b)[i] > 'e')) { break; } text[i] = buffer_at_offset(b)[i]; }
+    text[i] = '\0';
+    *out = strtod((const char*)text, (char**)&after_end);
+    if (text == after_end) { return 0; }
+    b->offset += i;
+    return 1;
+}
 
 /* EFF7 */
 static void bad_EFF7_write(parse_buffer * const b) { if (can_access_at_index(b, 0)) { ((unsigned char*)b->content)[b->offset] = '\0'; } }
